@@ -9,7 +9,7 @@ from typing import Dict, List, Optional, Set, Tuple
 from oqv import roles, rolebind
 from oqv.astutil import call_name, method_call
 from oqv.cfg import CFG
-from oqv.dataflow import DefUse, origin_text
+from oqv.dataflow import DefUse, form_at, origin_text
 from oqv.forms import Poly, eval_form
 from oqv.model import AnalysisError, Program, Unit, dotted, norm, walk_local
 from oqv.report import Check
@@ -299,10 +299,16 @@ def _field_eom_calls(u: Unit) -> List[ast.Call]:
 
 
 def _judge_field(chk: Check, owner: Unit, label: str, c: ast.Call, tt: Optional[Poly],
-                 ft: Optional[Poly]) -> None:
+                 ft: Optional[Poly], du: Optional[DefUse] = None) -> None:
     if len(c.args) < 3 or not isinstance(c.args[2], (ast.Name, ast.Attribute)) or ft is None \
             or tt is None:
         return
+    if du is not None and isinstance(c.args[2], ast.Name):
+        # a temporary that holds an expression (field + rk1*dt) is not a plain field value
+        d = du.unique_value(du.node_of(c), c.args[2].id)
+        if d is not None and d.value is not None and not d.sel \
+                and not isinstance(d.value, (ast.Name, ast.Attribute)):
+            return
     ok = tt == ft
     chk.add("F1", owner, f"{label}: field argument {norm(c.args[2])} of field_eom({norm(c.args[0])}, ..)",
             ok, f"time at step {tt}, field of step {ft}" if ok else
@@ -373,7 +379,7 @@ def f1(prog: Program, chk: Check) -> None:
             _judge(chk, mu, f"MeanFieldTempo.{meth}", c, tm.time_tag(c.args[0], n2),
                    tm.state_tag(c.args[1], n2))
             _judge_field(chk, mu, f"MeanFieldTempo.{meth}", c, tm.time_tag(c.args[0], n2),
-                         tm.field_tag(c.args[2], n2) if len(c.args) > 2 else None)
+                         tm.field_tag(c.args[2], n2) if len(c.args) > 2 else None, tm.du)
     # ---- compute_dynamics_with_field
     u = prog.unit("system_dynamics:compute_dynamics_with_field")
     tu = Tags(prog, u)
@@ -383,7 +389,7 @@ def f1(prog: Program, chk: Check) -> None:
         _judge(chk, u, "compute_dynamics_with_field", c, tu.time_tag(c.args[0], nid),
                tu.state_tag(c.args[1], nid))
         _judge_field(chk, u, "compute_dynamics_with_field", c, tu.time_tag(c.args[0], nid),
-                     tu.field_tag(c.args[2], nid) if len(c.args) > 2 else None)
+                     tu.field_tag(c.args[2], nid) if len(c.args) > 2 else None, tu.du)
     closures = [v for v in prog.nested_units(u) if _field_eom_calls(v)]
     if not closures:
         raise AnalysisError("F1: the compute_field closure of compute_dynamics_with_field vanished")
@@ -412,7 +418,7 @@ def f1(prog: Program, chk: Check) -> None:
                 lab = f"{v.name}({', '.join(norm(a) for a in call.args[:3])}..) {where}"
                 _judge(chk, u, lab, c, tv.time_tag(c.args[0], n2), tv.state_tag(c.args[1], n2))
                 _judge_field(chk, u, lab, c, tv.time_tag(c.args[0], n2),
-                             tv.field_tag(c.args[2], n2) if len(c.args) > 2 else None)
+                             tv.field_tag(c.args[2], n2) if len(c.args) > 2 else None, tv.du)
 
 
 # --------------------------------------------------------------------- F2
@@ -459,17 +465,19 @@ def f2(prog: Program, chk: Check) -> None:
             return None
         A, R1, R2, T = Poly.sym("A"), Poly.sym("R1"), Poly.sym("R2"), Poly.sym("T")
         half = Poly.const(Fraction(1, 2))
-        f_field = eval_form(calls[1].args[2], leaf) if len(calls[1].args) > 2 else None
+        def formx(e, at_call):
+            return form_at(du, du.node_of(at_call), e, leaf)
+        f_field = formx(calls[1].args[2], calls[1]) if len(calls[1].args) > 2 else None
         chk.add("F2", u, f"rk2 field argument {norm(calls[1].args[2])}", f_field == A + DT * R1,
                 f"form {f_field}", calls[1])
         dtime = None
-        t1, t2 = eval_form(calls[0].args[0], leaf), eval_form(calls[1].args[0], leaf)
+        t1, t2 = formx(calls[0].args[0], calls[0]), formx(calls[1].args[0], calls[1])
         if t1 is not None and t2 is not None:
             dtime = t2 - t1
         chk.add("F2", u, f"rk2 time - rk1 time = {dtime}", dtime == DT,
                 "" if dtime == DT else "the second stage is not evaluated one step later", calls[1])
         rets = [x for x in walk_local(u.node) if isinstance(x, ast.Return)]
-        f_ret = eval_form(rets[0].value, leaf) if len(rets) == 1 else None
+        f_ret = form_at(du, du.node_of(rets[0]), rets[0].value, leaf) if len(rets) == 1 else None
         want = A + half * DT * R1 + half * DT * R2
         chk.add("F2", u, f"return {norm(rets[0].value) if rets else ''}", f_ret == want,
                 f"form {f_ret}" if f_ret == want else f"form {f_ret}, expected {want}",
